@@ -202,11 +202,35 @@ def step (st : State) (w : List String) : State × String :=
         ({ st with ps := ps }, s!"status={apiStatus false st.ps.mem req}")
       else (st, "bad-op")
     | none => (st, "bad-op")
-  | "bl" :: "cserve" :: _ => (st, "unmodelled")
+  | ["bl", "cserve", qt, names] =>
+    -- the order in which concurrent queries are served does not matter: each is answered on its own
+    match qt.toNat?, hexList names with
+    | some t, some ns =>
+      let k := (ns.filter fun n => !(serveDNS st.cfg st.ps.mem n t).next).length
+      (st, s!"blocked={k} of {ns.length}")
+    | _, _ => (st, "bad-op")
   | ["bl", "state"] =>
     (st, s!"{memStr st.ps.mem} w={listHex st.ps.mem.w} len={st.ps.mem.length} ver={st.ps.version} lp={st.ps.lastPersisted}")
   | ["bl", "file"] => (st, fileStr st.ps.main)
-  | "bl" :: "reload" :: _ => (st, "unmodelled")
+  | ["bl", "reload"] =>
+    match st.ps.main with
+    | none => (st, "nofile")
+    | some _ =>
+      -- memory written in the order that is worst for the loader (shortest names first), reloaded
+      let mem := st.ps.mem
+      let byLen (l : List Str) : List Str :=
+        (l.toArray.qsort (fun a b => a.length < b.length || (a.length == b.length && strHex a < strHex b))).toList
+      let adv := headerLine :: (byLen mem.m ++ (byLen mem.wild).map (fun x => '*' :: '.' :: x))
+      let r := parseHostFile { w := mem.w } (fileText adv)
+      let exact := memStr r == memStr mem
+      let zz : Str := "zz.".toList
+      let probesOf (e : Str) : List Str :=
+        let parent := (e.dropWhile (· ≠ '.')).drop 1
+        [e, zz ++ e, ("a.".toList ++ zz) ++ e] ++ (if parent.isEmpty then [] else [parent])
+      let probes := [".".toList, zz] ++ mem.m.flatMap probesOf ++
+        mem.wild.flatMap (fun x => probesOf x ++ ['*' :: '.' :: x])
+      let equiv := probes.all (fun p => «exists» r p == «exists» mem p)
+      (st, s!"equiv={boolStr equiv} exact={boolStr exact}")
   | "bl" :: "conc" :: _ => (st, "unmodelled")
   | "bl" :: "crash" :: _ => (st, "unmodelled")
   | "bl" :: "realnew" :: _ => (st, "unmodelled")
